@@ -49,10 +49,23 @@ Words == {Spell[i].w : i \in 1 .. N} \ {""}
 Body(seq) == IF Len(seq) >= 2 /\ Spell[seq[1]].t = "Key: value" /\ Spell[seq[2]].t = "" THEN SubSeq(seq, 3, Len(seq)) ELSE seq
 Readable(seq) == \A i \in 1 .. Len(Body(seq)) : ~Spell[Body(seq)[i]].hide
 \* (a bracket that ends the text of a Setext heading is that heading's label, not text)
-IsLabel(seq, i) == Spell[seq[i]].t = "[cap]" /\ i < Len(seq) /\ Spell[seq[i + 1]].t = "==="
+IsLabel(seq, i) == Spell[seq[i]].t = "[cap]" /\ i < Len(seq) /\ Spell[seq[i + 1]].t \in {"===", "---"}
 Need(seq, w) == Cardinality({i \in 1 .. Len(seq) : Spell[seq[i]].w = w /\ ~IsLabel(seq, i)})
+\* ---- line by line: which lines of ANY document are still in sight ---------------------------------------------------
+\* A hiding line takes along the lines that follow it up to the next blank line (an HTML block, a definition and its lazy continuation, the metadata
+\* block at the top); a comment may stay open across blank lines; indented lines after a blank line still belong to an earlier definition.
+Txt(seq, i) == Spell[seq[i]].t
+GroupStart(seq, i) == LET B == {j \in 1 .. (i - 1) : Txt(seq, j) = ""} IN IF B = {} THEN 1 ELSE 1 + CHOOSE j \in B : \A k \in B : k <= j
+IsDef(seq, j) == Spell[seq[j]].first \in {"LINE_DEF_ABBREVIATION", "LINE_DEF_CITATION", "LINE_DEF_FOOTNOTE", "LINE_DEF_GLOSSARY", "LINE_DEF_LINK"}
+Exposed(seq, i) == /\ ~Spell[seq[i]].hide
+                   /\ \A j \in GroupStart(seq, i) .. (i - 1) : ~Spell[seq[j]].hide
+                   /\ \A j \in 1 .. (i - 1) : Txt(seq, j) # "<!--"
+                   /\ ~(Txt(seq, i) \in {"\ttabbed", "    spaced"} /\ \E j \in 1 .. (i - 1) : IsDef(seq, j))
+                   /\ Txt(seq, 1) # "---"
+NeedExposed(seq, w) == Cardinality({i \in 1 .. Len(seq) : Spell[seq[i]].w = w /\ Exposed(seq, i) /\ ~IsLabel(seq, i)})
 \* cnt: word -> occurrences in the rendering's text (markup removed); carries: the format keeps the source text itself
 \* (metadata keys are unique: when the block at the top gives the key a second time, that value -- and the lines it lazily continues over -- is not kept anywhere)
 DupKey(seq) == Len(seq) >= 2 /\ Spell[seq[1]].t = "Key: value" /\ \E i \in 2 .. Len(seq) : Spell[seq[i]].t = "Key: value" /\ \A j \in 2 .. i : Spell[seq[j]].t # ""
-Complete(seq, cnt, carries) == ((carries /\ ~DupKey(seq)) \/ Readable(seq)) => \A w \in Words : cnt[w] >= Need(seq, w)
+Complete(seq, cnt, carries) == IF (carries /\ ~DupKey(seq)) \/ Readable(seq) THEN \A w \in Words : cnt[w] >= Need(seq, w)
+                               ELSE \A w \in Words : cnt[w] >= NeedExposed(seq, w)
 =============================================================================
